@@ -44,7 +44,7 @@ Qed.
 Inductive EvSeq (c : cfg) (now : N) : store -> list key -> list key -> store -> list key -> Prop :=
 | ES_nil : forall m q, EvSeq c now m q [] m q
 | ES_cons : forall m q v rest m' q',
-    find_victim c now m q = Some v ->
+    victim_ok c now m q v ->
     EvSeq c now (sremove v m) (remove_first v q) rest m' q' ->
     EvSeq c now m q (v :: rest) m' q'.
 
@@ -72,7 +72,7 @@ Proof.
   intros c now m q o m' q' H. induction H as [m q|m q v rest m' q' Hv H IH].
   - split; [constructor|]. split; [|tauto]. intro x. cbn [In]. tauto.
   - destruct IH as (Hnd & Hin & Hincl).
-    apply find_victim_In in Hv. destruct Hv as [_ Hvm].
+    apply victim_ok_In in Hv. destruct Hv as [_ Hvm].
     assert (Hvn : ~ In v (keys m')).
     { intro Hc. apply Hincl in Hc. apply In_keys_sremove in Hc. tauto. }
     split; [|split].
@@ -124,9 +124,9 @@ Proof.
   - destruct (total_size m + extra <=? M).
     + inversion H; subst. exists []. split; [constructor|intros _; exact I].
     + destruct (evict_one c now u m q ch) as [[[m1 q1] ev] ch1] eqn:E.
-      pose proof (evict_one_score_victim _ _ _ _ _ _ _ _ _ _ Hp (proj1 HS) E) as Hv.
-      destruct (find_victim c now m q) as [v|] eqn:Ev.
-      * destruct Hv as (Hev & Hm1 & Hq1 & Hch1). subst ev m1 q1 ch1.
+      destruct (evict_one_score_victim _ _ _ _ _ _ _ _ _ _ Hp (proj1 HS) E)
+        as [(v & Ev & Hev & Hm1 & Hq1)|(_ & Hev & Hm1 & Hq1)].
+      * subst ev m1 q1.
         pose proof (Struct_remove_first v m q HS) as HS1.
         destruct (N.eq_dec v k) as [Evk|Evk];
           [destruct (N.leb_spec (total_size (sremove k m) + extra) M) as [Hle|Hgt]|].
@@ -139,7 +139,7 @@ Proof.
            exists (v :: order). split; [apply ES_cons; assumption|]. intro Hle.
            cbn [klast]. split; [intro Ec; contradiction|]. apply Hk.
            rewrite sremove_comm. pose proof (total_size_sremove_le v (sremove k m)). lia.
-      * destruct Hv as (Hev & Hm1 & Hq1 & Hch1). subst ev m1 q1 ch1.
+      * subst ev m1 q1.
         inversion H; subst. exists []. split; [constructor|intros _; exact I].
 Qed.
 
@@ -156,12 +156,12 @@ Proof.
     [|inversion H; subst; exists []; split; [constructor|split; [cbn [length]; lia|congruence]]].
   destruct (evict_one c now false m q ch) as [[[m1 q1] ev] ch1] eqn:E.
   inversion H; subst m1 q1 ch1.
-  pose proof (evict_one_score_victim _ _ _ _ _ _ _ _ _ _ Hp (proj1 HS) E) as Hv.
-  destruct (find_victim c now m q) as [v|] eqn:Ev.
-  - destruct Hv as (_ & Hm1 & Hq1 & _). subst m' q'.
+  destruct (evict_one_score_victim _ _ _ _ _ _ _ _ _ _ Hp (proj1 HS) E)
+    as [(v & Ev & _ & Hm1 & Hq1)|(_ & _ & Hm1 & Hq1)].
+  - subst m' q'.
     exists [v]. split; [apply ES_cons; [exact Ev|constructor]|].
     split; [cbn [length]; lia|]. intros _. exists L. split; [reflexivity|exact Eo].
-  - destruct Hv as (_ & Hm1 & Hq1 & _). subst m' q'.
+  - subst m' q'.
     exists []. split; [constructor|split; [cbn [length]; lia|congruence]].
 Qed.
 
@@ -278,11 +278,11 @@ Lemma async_minimiser : forall c now g cands m q v,
     NoDup cands -> (forall y, In y cands <-> In y (keys m)) ->
     Agree g m ->
     (tracks_recency (pol c) = true -> increasing (gstamp true g) q) ->
-    find_victim c now m q = Some v ->
+    victim_ok c now m q v ->
     inb v cands = true /\ is_minimiser c now g cands v = true.
 Proof.
   intros c now g cands m q v Ha HS Hnd Hiff HAg Hinc Hv.
-  destruct (find_victim_min c now m q v Hv) as (j & e & Hn & Hl & Hmin & _).
+  destruct Hv as (j & e & Hn & Hl & Hmin).
   assert (Hcq : forall y, In y cands <-> In y q).
   { intro y. rewrite Hiff. symmetry. apply HS. }
   assert (Hsc : forall j' x e', nth_key j' q = Some x -> lookup x m = Some e' ->
@@ -374,11 +374,11 @@ Lemma sync_minimiser : forall c now g cands m q v k ek,
     (forall y, In y cands <-> In y (keys m)) ->
     Agree g m ->
     lookup k m = Some ek -> e_freq ek = 0 ->
-    find_victim c now m q = Some v ->
+    victim_ok c now m q v ->
     inb v cands = true /\ is_minimiser c now g cands v = true.
 Proof.
   intros c now g cands m q v k ek Ha HS Hiff HAg Hk Hf Hv.
-  destruct (find_victim_min c now m q v Hv) as (j & e & Hn & Hl & Hmin & _).
+  destruct Hv as (j & e & Hn & Hl & Hmin).
   assert (Hkq : In k q) by (apply HS; apply (lookup_Some_In k m ek); exact Hk).
   destruct (In_nth_key k q Hkq) as [jk Hjk].
   pose proof (Hmin jk k ek Hjk Hk) as Hle.
